@@ -155,7 +155,7 @@ theorem identity_loss_pinned_unary (C : FCtx K) (x : PObj K) (f : String)
     (follow C (.unary f) x.loseCanon).map Res.noCanon = (follow C (.unary f) x).map Res.noCanon := by
   simp only [follow, viaDispatch, PObj.loseCanon, PObj.operand, Ufunc.dispatch]
   apply read_off_canon
-  · intro o o' hf hm; funext v; simp [hf, hm]
+  · intro o o' hf hff hm; funext v; simp [hf, hff, hm]
   · exact unaryPath_canon (C.ufunc x.reg) _ rfl _ x.unit (reprOf x.unit) _ _ h
 
 
@@ -171,7 +171,7 @@ theorem identity_loss_pinned_binaryQ (C : FCtx K) (hb : UeqBlindF C) (x : PObj K
   | ok u1 =>
     simp only [viaDispatch, PObj.operand, Ufunc.dispatch]
     apply read_off_canon
-    · intro o o' hf hm; funext a; simp [hf, hm]
+    · intro o o' hf hff hm; funext a; simp [hf, hff, hm]
     · exact binaryPath_rsim (C.ufunc x.reg) (ueqBlind_of C x.reg hb) _ rfl _ _ _ _
         (rsim_lose x.unit (reprOf x.unit) h) (RSim.refl _) _
 
@@ -181,7 +181,7 @@ theorem identity_loss_pinned_binarySelf (C : FCtx K) (hb : UeqBlindF C) (x : POb
     (follow C (.binarySelf f) x.loseCanon).map Res.noCanon = (follow C (.binarySelf f) x).map Res.noCanon := by
   simp only [follow, PObj.loseCanon, viaDispatch, PObj.operand, Ufunc.dispatch]
   apply read_off_canon
-  · intro o o' hf hm; funext a; simp [hf, hm]
+  · intro o o' hf hff hm; funext a; simp [hf, hff, hm]
   · exact binaryPath_rsim (C.ufunc x.reg) (ueqBlind_of C x.reg hb) _ rfl _ _ _ _
       (rsim_lose x.unit (reprOf x.unit) h) (rsim_lose x.unit (reprOf x.unit) h) _
 
